@@ -105,6 +105,8 @@ impl DeltaStream {
         broadcast use lemma_push_concat;
 //@ loop 1
                 invariant
+                    old(self).header is None, old(self).withdraw is Some, old(self).announce is Some,
+                    old(self).wf(d0), d0 == old(self).dl(), p0 == old(self).announce->Some_0.pos(),
                     announce.wf(), *announce.delta == *d0,
                     self.withdraw == old(self).withdraw, self.header is None, self.first == old(self).first,
                     vec@ == old(vec)@,
@@ -114,6 +116,8 @@ impl DeltaStream {
                     rest_items(d0, announce.pos(), Action::Announce, self.first)
                         == rest_items(d0, p0, Action::Announce, self.first),
                 decreases flat_len(d0) - announce.pos(),
+//@ loopentry 1
+                broadcast use lemma_push_concat;
 //@ fn DeltaStream::next_withdraw
 //@ spec
     requires
@@ -134,6 +138,8 @@ impl DeltaStream {
         broadcast use lemma_push_concat;
 //@ loop 1
                 invariant
+                    old(self).header is None, old(self).withdraw is Some, old(self).announce is None,
+                    old(self).wf(d0), d0 == old(self).dl(), p0 == old(self).withdraw->Some_0.pos(),
                     withdraw.wf(), *withdraw.delta == *d0,
                     self.announce is None, self.header is None, self.first == old(self).first,
                     vec@ == old(vec)@,
@@ -142,6 +148,8 @@ impl DeltaStream {
                     rest_items(d0, withdraw.pos(), Action::Withdraw, self.first)
                         == rest_items(d0, p0, Action::Withdraw, self.first),
                 decreases flat_len(d0) - withdraw.pos(),
+//@ loopentry 1
+                broadcast use lemma_push_concat;
 //@ fn DeltaStream::next
 //@ spec
     requires
@@ -164,12 +172,15 @@ impl DeltaStream {
         broadcast use axiom_trace_empty, axiom_bytes_of;
 //@ loop 1
             invariant
+                old(self).withdraw is Some, d0 == old(self).dl(),
                 self.header is None, self.withdraw is Some, self.dl() == d0, self.wf(d0),
                 // C18
                 trace(vec@) + self.rest(d0) == old(self).rest(d0),
                 self.measure(d0) <= old(self).measure(d0),
                 vec@.len() == 0 || self.measure(d0) < old(self).measure(d0),
             decreases self.measure(d0),
+//@ loopentry 1
+            broadcast use axiom_trace_empty, axiom_bytes_of, lemma_push_concat;
 //@ global
 impl<'a> vstd::std_specs::convert::FromSpecImpl<&'a AspaAction> for Action {
     open spec fn obeys_from_spec() -> bool { true }
